@@ -509,7 +509,7 @@ func c05(c *an.Ctx) {
 		}
 	})
 
-	c.Check("R-LOCK", "Invoke never blocks (channel receive/send, blocking select, wait) while holding batchContext.mu", 2, func(o *an.O) {
+	c.Check("R-LOCK", "Invoke never blocks (channel receive/send, blocking select, wait) and never runs user-supplied code (Shard, Many) while holding batchContext.mu", 2, func(o *an.O) {
 		fn := invoke()
 		ls := an.ComputeLocks(fn, nil)
 		for _, f := range an.WithAnons(fn) {
@@ -527,6 +527,17 @@ func c05(c *an.Ctx) {
 				o.Site(op.Instr)
 				if _, held := lsf.HeldField(op.Instr, "batchContext", "mu"); held {
 					o.FailAt(op.Instr, "Invoke blocks on a channel (%s %s) while holding batchContext.mu: if the awaited event was already consumed (e.g. the group's creator took the timer tick) every other caller of this batching context hangs behind the lock", op.Kind, an.Short(an.Expr(op.Chan), 40))
+				}
+			}
+			// user-supplied code (Func.Shard, Func.Many called directly) never runs under the lock: it may
+			// block, and a panic in it - recovered further up, as the graphql executor does - would leave
+			// the mutex locked because Invoke unlocks explicitly
+			for _, field := range []string{"Shard", "Many"} {
+				for _, dc := range an.DynCallsThrough(f, "Func", field) {
+					o.Site(dc)
+					if _, held := lsf.HeldField(dc, "batchContext", "mu"); held {
+						o.FailAt(dc, "Invoke calls the user-supplied Func.%s while holding batchContext.mu: if it panics the mutex stays locked (Invoke unlocks explicitly, not by defer) and every later or waiting caller of this batching context hangs", field)
+					}
 				}
 			}
 			for _, i := range an.CallsAny(f, an.CalleeSpec{Pkg: "sync", Recv: "WaitGroup", Name: "Wait"}, an.CalleeSpec{Pkg: "time", Name: "Sleep"}, an.Mod("concurrencylimiter", "", "TemporarilyRelease"), an.Mod("batch", "", "safeInvoke")) {
